@@ -2,6 +2,7 @@ mod drv_bool;
 mod drv_circuit;
 mod drv_hashtbl;
 mod drv_names;
+mod drv_pick;
 mod drv_num;
 mod ext;
 mod kinds;
@@ -41,6 +42,18 @@ fn main() {
         "tables" => by_kind!(kind, tables, &args),
         "hist" => by_kind!(kind, hist, &args),
         "reorder" => by_kind!(kind, reorder, &args),
+        "pick" => match kind.as_str() {
+            "bdd" => drv_pick::pick::<BDDFunction>(&args),
+            "bcdd" => drv_pick::pick::<BCDDFunction>(&args),
+            "zbdd" => drv_pick::pick::<ZBDDFunction>(&args),
+            k => panic!("harness: unknown kind {k}"),
+        },
+        "count" => match kind.as_str() {
+            "bdd" => drv_pick::count::<BDDFunction>(&args),
+            "bcdd" => drv_pick::count::<BCDDFunction>(&args),
+            "zbdd" => drv_pick::count::<ZBDDFunction>(&args),
+            k => panic!("harness: unknown kind {k}"),
+        },
         "names" => match kind.as_str() {
             "bdd" => drv_names::run::<BDDFunction>(&args),
             "bcdd" => drv_names::run::<BCDDFunction>(&args),
